@@ -387,7 +387,8 @@ def c15(tier, seed, case=None):
             'ShapeReader with index, <= %d over {iterate 0/1/2/all} without index, <= %d over {iterate.., seek(k), shape_count} on the '
             'complete Reader (rows carry their index), each on a file of 3 records of pairwise different sizes and on one of equal '
             'sizes; the same alphabets on readers WITHOUT index (ShapeReader and complete Reader), where seek / read_nth_shape / shape_count '
-            'must fail and leave shapes and rows where they were; each once through the generic API and once through the typed variants (iter_shapes_as, read_nth_shape_as, '
+            'must fail and leave shapes and rows where they were; every history also ended by the read-everything call (read / read_as, '
+            'consuming for ShapeReader); each once through the generic API and once through the typed variants (iter_shapes_as, read_nth_shape_as, '
             'iter_shapes_and_records_as; one letter shorter in the thorough tier); every call is judged by a reference model whose state is the set of start positions the property allows for the '
             'next iteration. distinct = (reader kind, file, word); all non-trivial' % n, exhaustive=True)
     for prof in _profiles(tier):
